@@ -313,15 +313,15 @@ theorem siteParams_pin : Gen.SketchSites.siteParams = [("sketch_ensureCapacity_c
   ("rehash_u1", ["h"]),
   ("rehash_r0", ["h"])] := by rfl
 
-theorem shape_pin : Gen.SketchSites.shape = [("newSketch", [0, 0, 0, 1, 0, 0]),
-  ("sketch_ensureCapacity", [4, 0, 8, 0, 0, 0]),
-  ("sketch_isNotInitialized", [0, 0, 0, 1, 0, 0]),
-  ("sketch_frequency", [2, 1, 11, 2, 0, 0]),
-  ("sketch_increment", [3, 1, 19, 0, 0, 0]),
-  ("sketch_incrementAt", [1, 1, 2, 2, 0, 0]),
-  ("sketch_reset", [1, 2, 4, 0, 0, 1]),
-  ("sketch_hash", [0, 0, 0, 1, 0, 0]),
-  ("spread", [0, 5, 0, 1, 0, 0]),
-  ("rehash", [0, 2, 0, 1, 0, 0])] := by rfl
+theorem shape_pin : Gen.SketchSites.shape = [("newSketch", [0, 0, 0, 1, 0, 0, 0]),
+  ("sketch_ensureCapacity", [4, 0, 8, 0, 0, 0, 0]),
+  ("sketch_isNotInitialized", [0, 0, 0, 1, 0, 0, 0]),
+  ("sketch_frequency", [2, 1, 11, 2, 0, 0, 0]),
+  ("sketch_increment", [3, 1, 19, 0, 0, 0, 0]),
+  ("sketch_incrementAt", [1, 1, 2, 2, 0, 0, 0]),
+  ("sketch_reset", [1, 2, 4, 0, 0, 1, 0]),
+  ("sketch_hash", [0, 0, 0, 1, 0, 0, 0]),
+  ("spread", [0, 5, 0, 1, 0, 0, 0]),
+  ("rehash", [0, 2, 0, 1, 0, 0, 0])] := by rfl
 
 end OtterVerif.Pin.SketchSites
